@@ -410,6 +410,16 @@ def build(tier):
         info = {'c_name': 'linear_do_vgrad_reg[generic]', 'cxx': 'linear::function_t::do_vgrad (regularisation part)', 'file': reg_smt.FILE, 'undecided': str(e)[:300]}
     vcs += v
     fns.append(info)
+    import parts_smt
+    try:
+        v, infos = parts_smt.vcs()
+    except (astload.ExtractionError, Exception) as e:
+        if not isinstance(e, astload.ExtractionError) and type(e).__name__ != 'Unsupported':
+            raise
+        v = [VC(f'linear_parts/not extracted: {str(e)[:160]}', '(check-sat)', solvers=['none'], about='weights / bias accessors: extraction failed')]
+        infos = [{'c_name': 'linear_parts', 'cxx': 'linear::function_t::weights / bias', 'file': parts_smt.HDR, 'undecided': str(e)[:300]}]
+    vcs += v
+    fns += infos
     return {
         'targets': targets, 'vcs': vcs, 'bounded': bounded, 'functions': fns,
         'decided': [
